@@ -143,8 +143,13 @@ theorem grown_closeOut {c : Cfg} (io : Nat → Fault) (st : St) (h : Inv c st) :
         exact Grown_trans g1 (grown_moveOut c io _
           (h3.1.wd (by simpa using hwd) (closeFd_hasOut io _ (by simpa using hr))))
 
-theorem grown_sealTail (c : Cfg) (io : Nat → Fault) (s1 : St) (f : File) : Grown s1.fs (sealTail c io s1 f).fs := by
+theorem grown_sealTail (c : Cfg) (io : Nat → Fault) (rd : Fault) (s1 : St) (f : File) :
+    Grown s1.fs (sealTail c io rd s1 f).fs := by
   unfold sealTail
+  split
+  · split
+    · exact Grown_refl _
+    · exact Grown_refl _
   split
   · simp only []
     split
@@ -166,8 +171,8 @@ theorem grown_openNew (c : Cfg) (io : Nat → Fault) (st : St) (fn : String) : G
       | none => exact Grown_set_new _ hg
       | some f =>
         simp only []
-        have key : ∀ s1 : St, s1.fs = st.fs → Grown st.fs (sealTail c io s1 f).fs :=
-          fun s1 e => e ▸ grown_sealTail c io s1 f
+        have key : ∀ s1 : St, s1.fs = st.fs → Grown st.fs (sealTail c io (io st.tick) s1 f).fs :=
+          fun s1 e => e ▸ grown_sealTail c io _ s1 f
         exact key _ rfl
 
 theorem grown_updateFile {c : Cfg} (io : Nat → Fault) (st : St) (now : Int) (fn : String) (h : Inv c st) :
